@@ -137,6 +137,7 @@ class Interp:
         s.steps = 0
         s.max_steps = s.opts.get('max_steps', 50_000_000)
         s.globals = {}          # name -> Region
+        s.rw = [] if s.opts.get('trace_rw') else None     # ordered trace of parameter-memory accesses (read-before-write discipline)
         s.journal = None        # undo log of memory writes inside a candidate raw helper (rawhelper.py)
         s.global_writes = set() # global regions stored to (function-local statics, file-scope state)
         s.log_access = s.opts.get('log_access', True)
@@ -215,6 +216,26 @@ class Interp:
             return
         if k == 'a' or k == 'v':
             if v[0] == 'str':
+                # c"..." initialiser of a byte array: printable characters stand for themselves, \XX is a byte in hex
+                txt = v[1]
+                if txt.startswith('c"'):
+                    txt = txt[2:]
+                if txt.endswith('"'):
+                    txt = txt[:-1]
+                i = 0
+                k = 0
+                while i < len(txt) and k < ty[1]:
+                    if txt[i] == '\\' and txt[i + 1:i + 2] == '\\':
+                        b = 0x5C
+                        i += 2
+                    elif txt[i] == '\\':
+                        b = int(txt[i + 1:i + 3], 16)
+                        i += 3
+                    else:
+                        b = ord(txt[i])
+                        i += 1
+                    s.mem[(reg, off + k)] = (b, 1)
+                    k += 1
                 return
             es = sizeof(s.mod, ty[2])
             for i, e in enumerate(v[1]):
@@ -264,6 +285,8 @@ class Interp:
         c = s.mem.get(k)
         if s.log_access and ptr.reg.kind in ('param', 'heap'):
             s.reads.append((ptr.reg, k[1], size))
+            if s.rw is not None:
+                s.rw.append(('r', ptr.reg.name, k[1]))
         if s.par is not None and ptr.reg.kind != 'global' and ptr.reg.owner != ('par', s.par):
             s.par_log.append(('r', ptr.reg, k[1], size, s.cur_iter))
         if c is not None:
@@ -307,6 +330,8 @@ class Interp:
         k = (ptr.reg, offkey(ptr.off))
         if s.log_access and ptr.reg.kind in ('param', 'heap'):
             s.writes.append((ptr.reg, k[1], size))
+            if s.rw is not None:
+                s.rw.append(('w', ptr.reg.name, k[1]))
         if s.par is not None and ptr.reg.owner != ('par', s.par):
             s.par_log.append(('w', ptr.reg, k[1], size, s.cur_iter))
         if s.journal is not None:
@@ -1083,6 +1108,19 @@ class Interp:
                     raise Incomplete('permute with symbolic index')
                 k &= 15
                 out.append(a[k] if k < 8 else b[k - 8])
+            return out
+        m_ = re.match(r'llvm\.x86\.avx(512\.permvar\.di\.(256|512)|2\.permd|2\.permps)$', name)
+        if m_:
+            # variable permute with an index vector that is a constant: out[i] = a[idx[i] mod n]
+            a, idx = args
+            if not (isinstance(a, list) and isinstance(idx, list) and len(a) == len(idx)):
+                raise Incomplete('variable permute of %r' % (a,))
+            out = []
+            for i in range(len(a)):
+                k = idx[i]
+                if not isinstance(k, int):
+                    raise Incomplete('permute with symbolic index')
+                out.append(a[k % len(a)])
             return out
         if name.startswith('llvm.umul.with.overflow.'):
             a, b = args
